@@ -381,9 +381,19 @@ def finish(pid, tier, seed, results, meta, wall, replaying, only):
                 known_seen.append((k, o))
             else:
                 violations.append(o)
+    # class-B obligations are bounded run-time contracts: reported, decided (a refutation is a violation), but never counted as proved
+    bobs = [o for o in obs if o['class'] == 'B']
+    obs = [o for o in obs if o['class'] != 'B']
+    for o in bobs:
+        if o['status'] == 'discharged':
+            import re
+            mm = re.search(r'(\d+) (?:histories|cases|evaluations)', o['detail'])
+            nn = int(mm.group(1)) if mm else 1
+            bounded.append({'name': o['name'], 'functions': o['functions'], 'evaluations': nn, 'distinct_nontrivial': nn, 'rule': o['detail'][:300], 'samples': [o['detail'][:200]],
+                            'exhaustive': False, 'wall_s': round(o['solver_s'], 3), 'failure': None})
     n_ob = len(obs)
     n_dis = sum(1 for o in obs if o['status'] == 'discharged')
-    undecided = [o for o in obs if o['status'] == 'undecided']
+    undecided = [o for o in obs if o['status'] == 'undecided'] + [o for o in bobs if o['status'] == 'undecided']
     seen_k = []
     for k, o in known_seen:
         if k in seen_k:
